@@ -220,7 +220,7 @@ def run_cache(cfg, res):
         for j in sorted(set(r.randrange(d + 1, hi.decisions + 2) for _ in range(min(take, m)))):
           one(S.DeviationPolicy({d: 1, j: 1}), 'preempt@%d,%d' % (d, j))
     # small caches cross the high watermark on almost every store: that is where the two handler chains can meet
-    nrand = (100 if cfg['max'] > 2 else 400) if cfg['tier'] == 'quick' else (500 if cfg['max'] > 2 else 1200)
+    nrand = (200 if cfg['max'] > 2 else 1500) if cfg['tier'] == 'quick' else (500 if cfg['max'] > 2 else 3000)
     for _ in range(nrand):
       c = r.random()
       if c < 0.75:
